@@ -68,6 +68,17 @@ def snapshot(asm, drop_tags=False):
     )
 
 
+def snapshot_of_spec(spec, headers=()):
+    """what a faithful parse must give, taken from the case description itself (never from library objects)"""
+    return (
+        tuple(headers),
+        tuple(
+            (name, tuple(("G", r[1], r[2]) if r[0] == "G" else ("F", r[1], r[2], r[3], r[4], tuple(r[5])) for r in rows))
+            for name, rows in spec
+        ),
+    )
+
+
 def tpf_domain(spec):
     for _, rows in spec:
         if not rows or rows[0][0] == "G":
@@ -123,7 +134,46 @@ class C05(Check):
         out += [("s3", i) for i in range(len(NAMES))]
         out += [("corrupt", i) for i in range(len(REDUCED))]
         out += [("cli", i) for i in range(4)]
+        out += [("long", n) for n in (16_384, 16_385, 40_000, 70_001)]
         return out
+
+    def check_long(self, nrows, ctx):
+        """one assembly of nrows rows (several scaffolds, gaps on odd rows): constants hidden in writers/parsers"""
+        per = max(2, nrows // 3)
+        spec = []
+        k = 0
+        for si in range(3):
+            rows = []
+            n = per if si < 2 else nrows - 2 * per
+            for i in range(n):
+                k += 1
+                if i % 2 == 1 and i != n - 1:
+                    rows.append(("G", 200 if i % 4 == 1 else 7, "scaffold" if i % 4 == 1 else "contig"))
+                else:
+                    rows.append(("F", f"ctg{k}", 1, 100 + (k % 50), 1 if k % 3 else -1, ()))
+            spec.append((f"SUPER_{si + 1}", rows))
+        case = ["long", nrows]
+        ctx.cur = case
+        ctx.evaluations += 1
+        ctx.nontrivial += 1
+        asm = build(spec, HEADERS[1])
+        want = snapshot_of_spec(spec, HEADERS[1])
+        for kind in ("AGP", "TPF"):
+            try:
+                text = fmt(asm, kind)
+                back = parse(text, kind)
+            except Exception as e:  # noqa: BLE001
+                ctx.violation(f"long-{kind.lower()}-raises:{type(e).__name__}", case, repr(e)[:300])
+                continue
+            if len(data_lines(text)) != nrows:
+                ctx.violation(f"long-{kind.lower()}-rows-ne-lines", case, f"{len(data_lines(text))} data lines for {nrows} rows")
+            got = snapshot(back)
+            if got != want:
+                bad = [(a[0], len(a[1]), len(b[1])) for a, b in zip(got[1], want[1]) if a != b][:2]
+                ctx.violation(f"long-{kind.lower()}-roundtrip", case, f"scaffolds differ: {bad!r}")
+            elif fmt(back, kind) != text:
+                ctx.violation(f"long-{kind.lower()}-bytes", case, "")
+        ctx.sample({"long": nrows})
 
     # ------------------------------------------------------------------
     def check_asm(self, spec, headers, ctx):
@@ -134,7 +184,10 @@ class C05(Check):
         if nontriv:
             ctx.nontrivial += 1
         asm = build(spec, headers)
-        want = snapshot(asm)
+        want = snapshot_of_spec(spec, headers)
+        if snapshot(asm) != want:
+            ctx.violation("constructed-assembly-differs-from-its-description", case, f"{snapshot(asm)!r} != {want!r}")
+            return
         nrows = sum(len(rows) for _, rows in spec)
         try:
             agp = fmt(asm, "AGP")
@@ -341,9 +394,13 @@ class C05(Check):
             ctx.sample({"corrupt": "every column deletion / 12 substitutions per column per line", "scaffold": [list(REDUCED[i])]})
         elif kind == "cli":
             self.check_cli(shard[1], ctx)
+        elif kind == "long":
+            self.check_long(shard[1], ctx)
 
     def replay(self, case, ctx):
         kind = case[0]
+        if kind == "long":
+            return self.check_long(case[1], ctx)
         if kind == "asm":
             spec = [(n, [tuple(tuple(x) if isinstance(x, list) else x for x in r) for r in rows]) for n, rows in case[1]]
             self.check_asm(spec, tuple(case[2]), ctx)
